@@ -69,3 +69,14 @@ def broadcast_loops(func_node, method: str):
             if ok:
                 out.append(s)
     return out
+
+
+def bundler_method_calls(node, method: str):
+    """calls of ``method`` on a run's bundler: on a local holding it (whatever it is called) or on ``self._run_bundlers[<key>]``"""
+    out = []
+    for c in A.calls_in(node):
+        if isinstance(c.func, ast.Attribute) and c.func.attr == method:
+            r = c.func.value
+            if isinstance(r, ast.Name) and r.id not in ("self", "obj", "msg") or (isinstance(r, ast.Subscript) and A.chain(r.value) == "self._run_bundlers"):
+                out.append(c)
+    return out
